@@ -115,6 +115,8 @@ class SeqIter(IndexIter):
         e = self.seq.at(i)
         if self.seq.kind == 'str':
             e = sym.char(e)
+        elif getattr(self.seq, 'tag', None) is not None:
+            e = self.seq.tag(e)
         if self.enum_start is not None:
             return (zint(i) + zint(self.enum_start), e)
         return e
